@@ -237,8 +237,9 @@ def function_value_roundtrip():
         body = d.hugr
     elif k == 1:
         d = Dfg(tys.Qubit, tys.Bool)
-        n = d.add_op(programs.cust("x", [tys.Bool], [tys.Bool]), d.inputs()[1])
+        n = d.add_op(programs.cust("x", [tys.Bool], [tys.Bool]), d.inputs()[1], metadata={"inner": ["meta", 1]})
         d.set_outputs(d.inputs()[0], n[0])
+        d.hugr[d.hugr.root].metadata["root_note"] = "ü"
         body = d.hugr
     else:
         d = Dfg()
